@@ -6,6 +6,8 @@ CONSTANTS N = 3
  Siblings = FALSE
  MinHidden = 0
  Focus = "all"
+ Shape = "any"
+ Flaws = {}
  SliceK = 1
  SliceI = 0
 SPECIFICATION SpecGc
